@@ -59,6 +59,20 @@ fn mac(m: &Macro) -> Value {
     use syn::parse::Parser;
     let parser = Punctuated::<Expr, Token![,]>::parse_terminated;
     let name = path_segs(&m.path).join("::");
+    if name == "matches" || name == "assert_matches" {
+        // matches!(expr, pattern [if guard]) : the second argument is a pattern, not an expression
+        let p = |input: syn::parse::ParseStream| -> syn::Result<(Expr, Pat, Option<Expr>)> {
+            let e: Expr = input.parse()?;
+            input.parse::<Token![,]>()?;
+            let pt = Pat::parse_multi_with_leading_vert(input)?;
+            let g = if input.peek(Token![if]) { input.parse::<Token![if]>()?; Some(input.parse::<Expr>()?) } else { None };
+            let _ = input.parse::<Option<Token![,]>>()?;
+            Ok((e, pt, g))
+        };
+        if let Ok((e, pt, g)) = p.parse2(m.tokens.clone()) {
+            return json!({"k":"matches","e":expr(&e),"pat":pat(&pt),"guard": g.as_ref().map(|x| expr(x)),"sp":sp(m)});
+        }
+    }
     match parser.parse2(m.tokens.clone()) {
         Ok(args) => json!({"k":"macro","name":name,"args":args.iter().map(expr).collect::<Vec<_>>(),"sp":sp(m)}),
         Err(_) => {
@@ -86,6 +100,9 @@ fn pat(p: &Pat) -> Value {
         Pat::Type(t) => json!({"k":"ptype","pat":pat(&t.pat),"ty":ts(&t.ty)}),
         Pat::Reference(r) => json!({"k":"pref","pat":pat(&r.pat)}),
         Pat::Paren(r) => pat(&r.pat),
+        Pat::Slice(sl) => json!({"k":"pslice","elems": sl.elems.iter().map(pat).collect::<Vec<_>>()}),
+        Pat::Rest(_) => json!({"k":"prest"}),
+        Pat::Range(r) => json!({"k":"prange","start": r.start.as_ref().map(|e| expr(e)),"end": r.end.as_ref().map(|e| expr(e)),"inclusive": matches!(r.limits, RangeLimits::Closed(_))}),
         other => json!({"k":"unsupported","what":format!("pat {}", ts(other)),"sp":sp(other)}),
     }
 }
@@ -122,11 +139,11 @@ fn expr(e: &Expr) -> Value {
         Expr::If(i) => json!({"k":"if","cond":expr(&i.cond),"then":block(&i.then_branch),"else": i.else_branch.as_ref().map(|e| expr(&e.1)),"sp":s}),
         Expr::Let(l) => json!({"k":"letcond","pat":pat(&l.pat),"e":expr(&l.expr),"sp":s}),
         Expr::Match(m) => json!({"k":"match","e":expr(&m.expr),"arms":m.arms.iter().map(|a| json!({"pat":pat(&a.pat),"guard":a.guard.as_ref().map(|g| expr(&g.1)),"body":expr(&a.body)})).collect::<Vec<_>>(),"sp":s}),
-        Expr::Loop(l) => json!({"k":"loop","body":block(&l.body),"sp":s}),
-        Expr::While(w) => json!({"k":"while","cond":expr(&w.cond),"body":block(&w.body),"sp":s}),
-        Expr::ForLoop(f) => json!({"k":"for","pat":pat(&f.pat),"iter":expr(&f.expr),"body":block(&f.body),"sp":s}),
-        Expr::Break(b) => json!({"k":"break","e":opt_expr(&b.expr),"sp":s}),
-        Expr::Continue(_) => json!({"k":"continue","sp":s}),
+        Expr::Loop(l) => json!({"k":"loop","label": l.label.as_ref().map(|x| x.name.ident.to_string()),"body":block(&l.body),"sp":s}),
+        Expr::While(w) => json!({"k":"while","label": w.label.as_ref().map(|x| x.name.ident.to_string()),"cond":expr(&w.cond),"body":block(&w.body),"sp":s}),
+        Expr::ForLoop(f) => json!({"k":"for","label": f.label.as_ref().map(|x| x.name.ident.to_string()),"pat":pat(&f.pat),"iter":expr(&f.expr),"body":block(&f.body),"sp":s}),
+        Expr::Break(b) => json!({"k":"break","label": b.label.as_ref().map(|x| x.ident.to_string()),"e":opt_expr(&b.expr),"sp":s}),
+        Expr::Continue(c) => json!({"k":"continue","label": c.label.as_ref().map(|x| x.ident.to_string()),"sp":s}),
         Expr::Return(r) => json!({"k":"return","e":opt_expr(&r.expr),"sp":s}),
         Expr::Try(t) => json!({"k":"try","e":expr(&t.expr),"sp":s}),
         Expr::Closure(c) => json!({"k":"closure","params":c.inputs.iter().map(pat).collect::<Vec<_>>(),"body":expr(&c.body),"sp":s}),
